@@ -34,12 +34,37 @@ def _key(R, t):
     return (tuple(R.ravel().tolist()), tuple(int(v) for v in np.round((t % 1) * 12).astype(int) % 12))
 
 
+def _lookup_from_table(number, choice, why):
+    import json
+    import os
+    import chmpy.crystal.space_group as sgmod
+    from chmpy.crystal.space_group import SpaceGroup
+    from chmpy.crystal.symmetry_operation import SymmetryOperation
+    table = json.load(open(os.path.join(os.path.dirname(sgmod.__file__), "sgdata.json")))
+    rows = [r for r in table[str(number)] if str(r[6]) == str(choice)]
+    if len(rows) != 1:
+        return ["%s and the setting is tabulated %d times" % (why, len(rows))]
+    codes = [int(c) for c in rows[0][8]]
+    try:
+        g = SpaceGroup.from_symmetry_operations([SymmetryOperation.from_integer_code(c) for c in codes])
+        if int(g.international_tables_number) != int(number) or {int(o.integer_code) for o in g.symmetry_operations} != set(codes):
+            return ["%s; lookup from the tabulated operation list of %d:%s gives %s:%s" % (why, number, choice, g.international_tables_number, g.choice)]
+    except Exception as e:
+        return ["%s; lookup from the tabulated operation list of %d:%s raises %s" % (why, number, choice, type(e).__name__)]
+    return []
+
+
 def check_setting(number, choice):
     """Ground oracle on the real code.  Returns list of failure strings."""
     from chmpy.crystal.space_group import SpaceGroup
     from chmpy.crystal.symmetry_operation import SymmetryOperation
     bad = []
-    sg = SpaceGroup(number, choice)
+    try:
+        sg = SpaceGroup(number, choice)
+    except Exception as e:
+        # the tabulated setting cannot be constructed: the group it describes is then looked up from the operation list
+        # written out in the table (no SpaceGroup object needed to state the list) -- the lookup clause still applies to it
+        return _lookup_from_table(number, choice, "SpaceGroup(%d, %r) raises %s" % (number, choice, type(e).__name__))
     ops = sg.symmetry_operations
     codes = [int(o.integer_code) for o in ops]
     # the object is the requested setting: number, choice and the operation codes tabulated for exactly this (number, choice)
